@@ -7,6 +7,8 @@ package store
 // Blocks (all widths, every amount of trailing padding for small widths, the empty block) are put into a real Store on a
 // temp dir and every representation is forced: recent cache (in-memory rsmt2d), reopened ODS+Q4 files, ODS-only put,
 // Q4 pruned (RemoveQ4 / file deleted), through Store, CachedStore, store.Getter and the bare accessors.
+// Two wide squares (32; thorough also 64) with a designed layout carry namespaces spanning exactly 16, exactly 17 and well
+// over 16 rows: namespace data (eds.NamespaceData fans out over the rows) is read on every representation and layer.
 //
 // L2: every read (with its observed result, shares as dictionary ids) is emitted as a history of reads on one accessor
 //     for CN.Store.ReadPaths.mismatches, which replays it on the model; the bytes of the real .ods/.q4 files are emitted
@@ -1186,13 +1188,14 @@ func TestVerifC05(t *testing.T) {
 		groups[cls] = r.Group(name, hb.String(), "ccase", "mismatches_raw raws")
 	}
 
-	// wide squares, quick tier: the model is run on the representations that are cheap to evaluate (ODS-only and Q4-pruned
+	// wide squares, quick tier (and the 64-wide ones in the thorough tier, where a case on the in-memory representation
+	// costs about a minute): the model is run on the representations that are cheap to evaluate (ODS-only and Q4-pruned
 	// files, every layer) and on one history each of the in-memory and the ODS+Q4 representation; the other histories of
 	// these squares are L3 only (compared with the square that was put and verified against its roots)
 	sharedPhase := false
-	if !r.Thorough() && !isReplay {
+	if !isReplay {
 		c.l3only = func(b *c05Block, rep, layer string) bool {
-			if !b.wide {
+			if !b.wide || (r.Thorough() && b.k < 64) {
 				return false
 			}
 			if sharedPhase {
@@ -1248,6 +1251,9 @@ func TestVerifC05(t *testing.T) {
 				return replay.Reads
 			}
 			if b.wide {
+				if b.k >= 64 {
+					return b.wideReads(rng, 16, plain)
+				}
 				return b.wideReads(rng, r.N(16, 160), plain)
 			}
 			return b.reads(rng, exhaustive, budget, plain)
